@@ -114,7 +114,8 @@ func inContext(t *rapid.T, f ast.Expr) (ast.Expr, string) {
 	case 6:
 		return ast.Call("map", ast.Ref(f), ast.A(a)), "expref-map"
 	case 7:
-		return ast.Call("sort_by", ast.A(a), ast.Ref(f)), "expref-sort_by"
+		fn := gen.Pick(t, "exprefn", []string{"sort_by", "min_by", "max_by", "group_by"})
+		return ast.Call(fn, ast.A(a), ast.Ref(f)), "expref-" + fn
 	case 8:
 		return &ast.Let{Names: []string{"v"}, Vals: []ast.Expr{f}, Body: ast.Var("v")}, "let-binding"
 	case 9:
